@@ -23,7 +23,9 @@ NESTED = ['nested-abort', 'nested-reject', 'nested-release', 'nested-silent',
           # the second association is requested from the SAME entity object and ends first
           'nested-same-entity-abort', 'nested-same-entity-normal', 'nested-same-entity-then-error']
 REAL = ['real-timeout-propagates', 'real-timeout-caught', 'real-timeout-caught-then-echo']
-VARIANTS = HAND + NESTED + REAL
+# the acceptor accepts the association but none of the proposed contexts
+NOCTX = ['no-context-normal', 'no-context-error']
+VARIANTS = HAND + NESTED + REAL + NOCTX
 POINTS = ['before', 'between', 'during']
 ACCEPTORS = ['lib', 'refpeer']
 
@@ -64,8 +66,10 @@ def run_case(res, case, attempt=0):
     variant = VARIANTS[j % len(VARIANTS)]
     point = POINTS[(j // len(VARIANTS)) % len(POINTS)]
     acceptor = ACCEPTORS[(j // (len(VARIANTS) * len(POINTS))) % 2]
-    if variant in REAL:
+    if variant in REAL or variant in NOCTX:
         acceptor = 'refpeer'          # only the reference peer can fall silent on purpose
+    if variant in NOCTX:
+        point = 'before'
     case = dict(case, kind='exit', variant=variant, point=point, acceptor=acceptor)
     where = 'exit %s point=%s acceptor=%s' % (variant, point, acceptor)
     if not attempt:
@@ -103,7 +107,7 @@ def run_case(res, case, attempt=0):
 
     def outer_handler(peer):
         """Reference acceptor of the association under observation."""
-        peer.accept(max_len=1024)
+        peer.accept(max_len=1024, choose=(lambda item: (3, b'')) if variant in NOCTX else None)
         silent_once = variant in REAL
         while True:
             try:
@@ -180,6 +184,10 @@ def run_case(res, case, attempt=0):
         if point == 'during':
             st = assoc.get_scu(svc.CT)(dataset(), 5)
             state['store'] = int(st)
+        if variant == 'no-context-normal':
+            return
+        if variant == 'no-context-error':
+            assoc.get_scu(svc.VERIFICATION)          # raises: no context was accepted for it
         if variant in HAND:
             raise make_exc(variant)
         if variant in NESTED:
@@ -272,11 +280,13 @@ def run_case(res, case, attempt=0):
                 'peer_saw': peer_seen[-2:], 'acceptor_errors': [type(e).__name__ for e in server_errors]},
                limit=8)
     res.count('oracle.context-manager')
-    normal_exit = variant in ('real-timeout-caught', 'real-timeout-caught-then-echo', 'nested-same-entity-normal')
+    normal_exit = variant in ('real-timeout-caught', 'real-timeout-caught-then-echo', 'nested-same-entity-normal',
+                              'no-context-normal')
     # --- the error (or its absence) the application sees
     want_type = {'nested-abort': exceptions.AssociationAbortedError,
                  'nested-same-entity-abort': exceptions.AssociationAbortedError,
                  'nested-same-entity-then-error': Foreign,
+                 'no-context-error': exceptions.ClassNotSupportedError,
                  'nested-reject': exceptions.AssociationRejectedError,
                  'nested-release': exceptions.AssociationReleasedError,
                  'nested-silent': exceptions.DCMTimeoutError,
